@@ -702,6 +702,12 @@ func (fx *FnCtx) binop(pc *Term, op token.Token, x, y Value, rt, xt, yt types.Ty
 		if m, ok := lowMask(a); ok {
 			return mk1(IModE(b, m))
 		}
+		if r, ok := andConstMask(a, b); ok {
+			return mk1(r)
+		}
+		if r, ok := andConstMask(b, a); ok {
+			return mk1(r)
+		}
 		return mk1(fx.bitUF("bitand", a, b, rt))
 	case token.OR:
 		if r, ok := fx.disjointOr(x, y, xt); ok {
@@ -715,6 +721,48 @@ func (fx *FnCtx) binop(pc *Term, op token.Token, x, y Value, rt, xt, yt types.Ty
 	}
 	fx.fail("unsupported int op %v", op)
 	return Value{}
+}
+
+// andConstMask: x & m for a constant m with few one bits, exactly, in mathematical integers
+// (x non-negative or two's complement; div/mod are floor/euclidean so this is right for both).
+func andConstMask(x, m *Term) (*Term, bool) {
+	if !m.IsNum() || m.Val.Sign() < 0 || m.Val.BitLen() > 64 {
+		return nil, false
+	}
+	bits := 0
+	for b := 0; b < m.Val.BitLen(); b++ {
+		if m.Val.Bit(b) == 1 {
+			bits++
+		}
+	}
+	if bits == 0 {
+		return IntNum(0), true
+	}
+	if bits > 6 {
+		return nil, false
+	}
+	// maximal runs of one bits: [lo,hi) contributes ((x div 2^lo) mod 2^(hi-lo)) * 2^lo
+	var sum *Term
+	b := 0
+	for b < m.Val.BitLen() {
+		if m.Val.Bit(b) == 0 {
+			b++
+			continue
+		}
+		lo := b
+		for b < m.Val.BitLen() && m.Val.Bit(b) == 1 {
+			b++
+		}
+		p := IntBig(new(big.Int).Lsh(big.NewInt(1), uint(lo)))
+		w := IntBig(new(big.Int).Lsh(big.NewInt(1), uint(b-lo)))
+		part := IMul(IModE(IDivE(x, p), w), p)
+		if sum == nil {
+			sum = part
+		} else {
+			sum = IAdd(sum, part)
+		}
+	}
+	return sum, true
 }
 
 func lowMask(t *Term) (*Term, bool) {
